@@ -16,7 +16,9 @@ Inductive dop :=
 | DShutdown         (* Shutdown(Background) *)
 | DShutdownX        (* Shutdown(scripted context) *)
 | DMode (m : mode)
-| DRelease (m : mode).  (* the blocked Export returns nil; the gate continues in mode m *)
+| DRelease (m : mode)   (* the blocked Export returns nil; the gate continues in mode m *)
+| DFlushLive (m : mode). (* ForceFlush with a live context while Export is blocked; once the
+                            call waits, the blocked Export returns nil and the gate continues in mode m *)
 
 Definition try (c : config) (s : st) (a : action) : option st := step c s a.
 
@@ -89,6 +91,13 @@ Definition dstep (c : config) (sm : st * mode) (o : dop) : st * mode :=
       | Some s' => (settle FUEL c m' s', m')
       | None => (s, m')
       end
+  | DFlushLive m' =>
+      let s1 := call c m false (AFlush 0) s in
+      let s2 := match step c s1 (AXEnd true) with
+                | Some x => settle FUEL c m' x
+                | None => settle FUEL c m' s1
+                end in
+      (drive FUEL c m' false s2, m')
   end.
 Definition drun (c : config) (p : list dop) : st := fst (fold_left (dstep c) p (init, MOk)).
 
